@@ -74,7 +74,7 @@ NOTES = {
     "C05-g": "first miss: every `#` node of the edit alphabet carried takesValue -> edit `add-value-taking-node:no-takesValue`",
     "C05-h": "first miss: multi-valued attributes compared as joined text -> STRICT_VALUE_LISTS: one XML element per value, compared as lists",
     "C07-g": "first miss: input objects were validated once -> F10 edit histories (in-place cell / column edits between assemblies and validations)",
-    "C07-h": "first miss: `Delay` written in one case -> `Delay` / `DELAY` / `delay` in F4",
+    "C07-h": "first miss: `Delay` written in one case, and never where the delayed position decides -> F4b: an Offset delayed past its Onset (and the reverse) under `Delay` / `DELAY` / `delay` / `dElAy`",
     "C08-h": "first miss: at most one `#` per tag -> two `#` in one tag (`Label/##`, `Label/#-#`)",
     "C09-h": "first miss: definitions whose sorted order does not depend on the value -> `(Label/#, Label/m)` and `((Speed/# mph, Square), (Speed/5 mph, Triangle))` with values either side of the sibling",
     "C10-g": "first miss: rows of one time point always differed in text -> byte-identical rows at one time point",
@@ -87,6 +87,8 @@ NOTES = {
     "C17-g": "first miss: rename maps without overlap of old and new names -> swap `a<->b` and chain `a->b, b->c`",
     "C17-h": "first miss: two-column keys never concatenated to equal text -> `('a','12')` vs `('a1','2')` keys with tables holding both",
     "C18-h": "first miss: backups stayed complete -> a recorded copy (or its directory) removed before a new manager is built",
+    "C20-g": "first miss: every Duration group had its own content -> `dur-fixed` items: distinct processes whose listed text is identical",
+    "C20-h": "first miss: unordered onsets were numeric only -> every onset triple with n/a whose numeric onsets decrease",
     "C19-h": "first miss: at most two refresh attempts per directory -> every history of <= 4 gaps from {1 s, T-1, T, 2T} against a one-number model",
 }
 
